@@ -310,7 +310,7 @@ pub fn run(ctx: &Ctx, replay: Option<&J>) -> CheckResult {
         }
         return CheckResult { evidence: ev, rule, assumptions, violations: vs };
     }
-    let nrand = ctx.n(6000, 1_200_000);
+    let nrand = ctx.n(100_000, 4_000_000);
     let mut names: Vec<String> = FIELDS.iter().filter(|f| f.is_float).map(|f| f.name.to_string()).collect();
     names.extend(["bias1059".to_string(), "bias1065".to_string(), "bias1230".to_string()]);
     const SHARDS: u64 = 8;
